@@ -96,4 +96,50 @@ def isPath : CState → List Cas → Bool
   | _, [] => true
   | s, c :: rest => decide (c.frm = s) && isPath c.to rest
 
+/-! ### request-level steps: who may end a Half-Open phase -/
+
+/-- the breaker as request threads see it: the state behind the mutex and the retry deadline -/
+structure RSt where
+  state : CState := .closed
+  retryAt : Nat := 0
+  retryMs : Nat := 1000
+  deriving Repr, DecidableEq, Inhabited
+
+/-- what a thread does to the breaker in one operation, each an atomic section of the state mutex (or two of them, for a
+probe whose entry another rule rejects: its own exit hook rolls the breaker back) -/
+inductive RStep where
+  | request (t : Nat) (now : Nat) (blockedElsewhere : Bool)   -- `try_pass` (+ the exit of the entry if another rule rejects it)
+  | complete (t : Nat) (now : Nat) (hit : Bool) (trip : Bool) -- `on_request_complete`; `trip`: the threshold is met (Closed only)
+  deriving Repr, DecidableEq, Inhabited
+
+/-- new state, the transitions performed (with the performing thread), and for a request whether the breaker admitted it -/
+def RSt.step (s : RSt) : RStep → RSt × List Cas × Option Bool
+  | .request t now blocked =>
+    match s.state with
+    | .closed => (s, [], some true)
+    | .halfOpen => (s, [], some false)
+    | .opn =>
+      if s.retryAt ≤ now then
+        -- the winner of Open→Half-Open carries the rollback hook; nobody else does
+        if blocked then ({ s with state := .opn }, [⟨t, .opn, .halfOpen⟩, ⟨t, .halfOpen, .opn⟩], some true)
+        else ({ s with state := .halfOpen }, [⟨t, .opn, .halfOpen⟩], some true)
+      else (s, [], some false)
+  | .complete t now hit trip =>
+    match s.state with
+    | .halfOpen =>
+      if hit then ({ s with state := .opn, retryAt := now + s.retryMs }, [⟨t, .halfOpen, .opn⟩], none)
+      else ({ s with state := .closed }, [⟨t, .halfOpen, .closed⟩], none)
+    | .closed =>
+      if trip then ({ s with state := .opn, retryAt := now + s.retryMs }, [⟨t, .closed, .opn⟩], none) else (s, [], none)
+    | .opn => (s, [], none)
+
+/-- a history of steps by any number of threads: the outcomes, oldest first -/
+def RSt.run (s : RSt) : List RStep → List (RStep × List Cas × Option Bool)
+  | [] => []
+  | st :: rest => let (s', log, adm) := s.step st; (st, log, adm) :: RSt.run s' rest
+
+def RSt.after (s : RSt) : List RStep → RSt
+  | [] => s
+  | st :: rest => RSt.after (s.step st).1 rest
+
 end Sentinel.Conc
